@@ -115,7 +115,13 @@ def load_module(hashed_grammar, file_io, cache_path=None):
     """
     Returns a module or None, if it fails.
     """
-    p_time = file_io.get_last_modified()
+    try:
+        p_time = file_io.get_last_modified()
+    except OSError:
+        # The path cannot even be stat'ed, e.g. because one of its components
+        # is not a directory or not searchable. try_to_save_module does not
+        # cache such a file either.
+        return None
     if p_time is None:
         return None
 
